@@ -29,4 +29,4 @@ class Result(dict):
 
 
 def dumps(obj):
-    return json.dumps(obj, indent=1, default=str, ensure_ascii=False)
+    return json.dumps(obj, indent=1, default=str, ensure_ascii=True)
